@@ -27,7 +27,7 @@ from .settings import Strategy
 @click.option("--config", default=None, help="Path to custom configuration file.")
 @click.argument(
     "strategy",
-    default=Strategy.CLIENT,
+    default=Strategy.CLIENT.value,
     type=click.Choice([e.value for e in Strategy]),
     required=False,
 )
